@@ -215,6 +215,29 @@ def ssb_workload(shard):
                 ops, _ = norm.renumber(ops, start=1, gap=(lambda: rnd.randint(1, 3)) if rnd.random() < 0.5 else None)
             yield name, c.routine_infos, ops, c.named_coroutines, {"source": text, "prog": prog, "kind": kind}
         return
+    if kind == "forced_fallback":
+        # random flow graphs over several routines with an op no structuring pass can place (a CaseText outside of a message
+        # switch) put behind the first op: the answer is the SsbScript fallback, with jumps between routines in both
+        # directions and jumps to the very first op (offset 0)
+        from explorerscript.ssb_converting.ssb_data_types import SsbOperation, SsbOpCode, SsbOpParamLanguageString
+        for i in range(shard["n"]):
+            for _ in range(30):
+                spec = random_ssb(rnd, hostile=0.0, well_formed=True, special_p=0.1, max_ops=shard.get("max_ops", 8), typed=True, keyword_names=False)
+                infos, ops, named = norm.make_ops(spec)
+                if well_formed_problem(ops) is None and any(ops):
+                    break
+            else:
+                continue
+            ops, _ = norm.renumber(ops, start=rnd.choice([0, 0, 1]), gap=lambda: 2)
+            ri = next(k for k, r in enumerate(ops) if r)
+            first = ops[ri][0]
+            if first.op_code.name in CTX_OPS:
+                continue
+            ops[ri].insert(1, SsbOperation(first.offset + 1, SsbOpCode(-1, "CaseText"), [rnd.randint(0, 3), SsbOpParamLanguageString({"english": "t%d" % i})]))
+            if well_formed_problem(ops) is not None:
+                continue
+            yield f"{kind}{i}", infos, ops, named, {"kind": kind}
+        return
     for i in range(shard["n"]):
         for _ in range(30):
             spec = random_ssb(rnd, hostile=shard.get("hostile", 0.0), well_formed=True,
